@@ -37,6 +37,16 @@ func genC20(seed uint64, tier string) *plan.Plan {
 		maxVal = 4
 	}
 	sc := plan.Script{ID: 1, Kind: "emb", M: 0}
+	skew := r.Bool(400)
+	if skew {
+		// skewed churn: cold keys written once fill most of the oldest table of every fragment, then a
+		// few hot keys are churned; the younger tables that hold only superseded versions must go
+		ncold := int(p.Cluster.Partitions) * r.Range(5, 9)
+		for i := 0; i < ncold; i++ {
+			sc.Ops = append(sc.Ops, plan.Op{K: "put", Key: fmt.Sprintf("c%03d", i), Val: fixedVal(maxVal)})
+		}
+		nkeys = r.Range(5, 30)
+	}
 	ttlShare := Pick(r, 0, 100, 300)
 	delShare := Pick(r, 50, 200, 400)
 	for i := 0; i < nops; i++ {
@@ -70,9 +80,17 @@ func genC20(seed uint64, tier string) *plan.Plan {
 		sc.Ops = append(sc.Ops, plan.Op{K: "get", Key: fmt.Sprintf("k%03d", i)})
 	}
 	p.Phases = []plan.Phase{{Name: "churn", Clients: []plan.Script{sc}}}
-	p.Variant = fmt.Sprintf("ts%d/k%d/R%d/N%d/ttl%d/del%d", ts, nkeys, p.Cluster.ReplicaCount, n, ttlShare, delShare)
+	p.Variant = fmt.Sprintf("ts%d/k%d/R%d/N%d/ttl%d/del%d/skew=%v", ts, nkeys, p.Cluster.ReplicaCount, n, ttlShare, delShare, skew)
 	p.Params["max_entry"] = int64(maxVal + 29 + 4)
 	return p
+}
+
+func fixedVal(n int) string {
+	b := make([]byte, n)
+	for i := range b {
+		b[i] = 'c'
+	}
+	return string(b)
 }
 
 func randVal(r *Rng, maxLen int) string {
